@@ -24,9 +24,29 @@ func Owner() *rapid.Generator[guid.G] {
 	})
 }
 
-// ESLList draws one well-formed list of a type the decoder handles.
+// ESLList draws one well-formed list of a type the decoder handles. One list in
+// eight repeats one of its entries (legal in a stream), one in sixteen is big
+// (33..70 entries).
 func ESLList() *rapid.Generator[esl.List] {
 	return rapid.Custom(func(t *rapid.T) esl.List {
+		l := eslListPlain(t)
+		if len(l.Entries) >= 1 && rapid.IntRange(0, 7).Draw(t, "dupentry") == 0 {
+			e := l.Entries[rapid.IntRange(0, len(l.Entries)-1).Draw(t, "which")]
+			at := rapid.IntRange(0, len(l.Entries)).Draw(t, "at")
+			l.Entries = append(l.Entries[:at:at], append([]esl.Entry{{Owner: e.Owner, Data: append([]byte{}, e.Data...)}}, l.Entries[at:]...)...)
+		}
+		if l.Type != esl.ExtMgm && rapid.IntRange(0, 15).Draw(t, "biglist") == 0 {
+			n := rapid.IntRange(33, 70).Draw(t, "bign")
+			for len(l.Entries) < n {
+				l.Entries = append(l.Entries, esl.Entry{Owner: Owner().Draw(t, "o"), Data: FillBytes(t, int(l.Size)-16)})
+			}
+		}
+		return l
+	})
+}
+
+func eslListPlain(t *rapid.T) esl.List {
+	{
 		switch rapid.IntRange(0, 9).Draw(t, "ltype") {
 		case 0, 1, 2, 3:
 			dl := rapid.SampledFrom([]int{0, 1, 31, 32, 33, 700, 701, 1023, 1500}).Draw(t, "certlen")
@@ -54,7 +74,7 @@ func ESLList() *rapid.Generator[esl.List] {
 			}
 			return l
 		}
-	})
+	}
 }
 
 // ESLStream draws 0..max well-formed lists in any order; adjacent lists of equal
